@@ -717,7 +717,7 @@ def generate(rng, tier):
     quick = tier == "quick"
     cases = []
     fixed = G.fixed_schema()
-    schemas = [fixed] + [G.random_schema(rng) for _ in range(3 if quick else 12)]
+    schemas = [fixed] + [G.random_schema(rng) for _ in range(3 if quick else 10)]
     shapes3 = G.type_shapes(3)
     for sd in schemas:
         names = ["Int", "Float", "String", "ID", "Boolean"] + [
